@@ -82,6 +82,20 @@ def serializer_config(ctx):
     return sm, site
 
 
+def _through_digest(msg, evs, what):
+    """a message that is H.finalize(): the bytes that matter are the first chunk fed to H"""
+    from sa.terms import concat_parts
+
+    if is_call(msg, ("method:finalize", "method:digest")) and msg[2]:
+        h = msg[2][0]
+        chunks = [e[3] for e in evs if e[0] == "hash-update" and e[2] == h]
+        if is_call(h) and h[2] and not h[1].endswith("hashes.Hash"):
+            chunks = [h[2][0]] + chunks
+        if chunks:
+            return concat_parts(chunks[0])[0], "first chunk of the digest given to " + what
+    return msg, what
+
+
 def _is_canon(eng, t):
     """t (expanded) == canonserialize(X) for some X"""
     if is_call(t, "method:encode") and t[2] and is_call(t[2][0], "ext:json.dumps") and t[2][0][2]:
@@ -111,13 +125,7 @@ def _sinks(ctx):
                 if ev[0] == "call" and ev[2] == "method:sign" and len(ev[3]) >= 2:
                     msg, what = ev[3][1], "key.sign"
                 elif ev[0] == "call" and ev[2] == "method:verify" and len(ev[3]) >= 3:
-                    msg, what = ev[3][2], "key.verify"
-                    if is_call(msg, ("method:finalize", "method:digest")) and msg[2]:
-                        h = msg[2][0]
-                        chunks = [e[3] for e in evs if e[0] == "hash-update" and e[2] == h]
-                        if is_call(h) and h[2] and not h[1].endswith("hashes.Hash"):
-                            chunks = [h[2][0]] + chunks
-                        msg, what = (chunks[0] if chunks else msg), "first chunk of the digest given to key.verify"
+                    msg, what = _through_digest(ev[3][2], evs, "key.verify")
                 elif ev[0] == "call" and ev[2].endswith("gpg.functions.create_signature") and ev[3]:
                     msg, what = ev[3][0], "GnuPG signer"
                 if msg is not None:
@@ -150,11 +158,12 @@ def _sinks(ctx):
                         for ev2 in all_events(p2.events):
                             if ev2[0] == "call" and ev2[2] == callee and idx is not None and idx < len(ev2[3]):
                                 found = True
-                                nxt.append((prog.funcs[q2], b2, ev2[1], ev2[3][idx], "%s (forwarded through %s)" % (what.split(" (")[0], fi.qualname)))
+                                m2, w2 = _through_digest(ev2[3][idx], list(all_events(p2.events)), what.split(" (")[0])
+                                nxt.append((prog.funcs[q2], b2, ev2[1], m2, "%s (forwarded through %s)" % (w2, fi.qualname)))
                 ctx.count("R3.forwarders")
                 ctx.ob("R3", "forwarder|%s|%s" % (fi.qualname, m[1]), site.loc(), "%s forwards its parameter '%s' to %s; %s" % (fi.qualname, m[1], what, "its library call sites are examined" if found else "it is a public primitive with no call site in the library"), True, nontrivial=False)
                 continue
             ctx.count("R3.sinks")
             ctx.ob("R3", "sink|%s" % site.key(), site.loc(), "message reaching %s in %s is %s, which is not produced by the one canonical serializer" % (what, fi.qualname, show(m)[:120]), False)
         pending = nxt
-    ctx.floor("R3.sinks", 4)
+    ctx.floor("R3.sinks", 2)
